@@ -99,6 +99,12 @@ theorem no_option_never_refused (opts : List (Nat × List UInt8)) (code : Nat) (
     rw [List.find?_eq_none]; intro o ho; simpa using h o ho
   simp [noRespOption, this, noResponseValue, setResponseAccepted]
 
+/-- facts read from `net/responsewriter/responseWriter.go` on every run: the response writer takes a snapshot of the
+    request's No-Response value when it is constructed (so nothing a handler does to its request object afterwards can
+    change what is suppressed) and finds the option by a lookup over the whole list (`noRespOption`, not the last slot). -/
+theorem writer_snapshots_whole_list_lookup :
+    Generated.NoResponse.readAtConstruction = true ∧ Generated.NoResponse.lookupOverWholeList = true := by decide
+
 /-- What reaches the wire conforms to the property for every transport, request type, option value and code. -/
 theorem serve_conforms (tr : Transport) (rt : ReqType) (noResp : Option Nat) (code : Nat) :
     judge tr rt noResp code (serve tr rt noResp code) = true := by
@@ -167,6 +173,7 @@ open CoapVerif.Props.C20
 #print axioms isNoResponse_eq_spec
 #print axioms only_low_bits_matter
 #print axioms setResponse_refused_iff
+#print axioms writer_snapshots_whole_list_lookup
 #print axioms noRespOption_anywhere
 #print axioms request_options_position_irrelevant
 #print axioms no_option_never_refused
